@@ -43,7 +43,8 @@ import Pog.Model.Registry
       `from core import <missing name>` make the module unimportable (`moduleOk`); calling with an
       unknown keyword or without a required one raises `TypeError` before the body runs; reading an
       unbound local raises `NameError`; `match` takes the first arm whose literal equals the subject.
-    * httpx 0.28: a keyword that is `None` is ignored; a header value that is not `str` raises
+    * httpx 0.28: `cookies={…}` becomes the `Cookie` header (a value that is neither `str` nor `None` raises `TypeError`
+      in http.cookiejar, `cookieValuesOk`); a keyword that is `None` is ignored; a header value that is not `str` raises
       `TypeError` before anything is sent (`headerValuesOk`; since the repair of F39 only a value of a parameter that
       is not declared integer / number / boolean can still be a non-`str` there).
 -/
@@ -710,6 +711,8 @@ structure Request where
   /-- `headers=`; `none` = `headers=None` -/
   headers : Option (List (Str × GValue))
   body : BodyArg
+  /-- `cookies=` (the `Cookie` header httpx builds from it); `none` = the call has no `cookies` keyword -/
+  cookies : Option (List (Str × GValue)) := none
   deriving DecidableEq, Repr
 
 inductive CallErr
@@ -723,6 +726,8 @@ inductive CallErr
   | valueError
   /-- httpx: `Header value must be str or bytes` -/
   | headerTypeError
+  /-- http.cookiejar under httpx: `expected string or bytes-like object` for a cookie value -/
+  | cookieTypeError
   deriving DecidableEq, Repr
 
 instance decEqExceptGen {ε α : Type} [DecidableEq ε] [DecidableEq α] : DecidableEq (Except ε α)
@@ -769,7 +774,7 @@ def GValue.tok : GValue → Str
   | .str t => t
   | .other t => t
 
-/-- `url_args_generator._string_value_expr` (F39 repaired), the expression a header entry is written with:
+/-- `url_args_generator._string_value_expr` (F39 repaired), the expression a header / cookie entry is written with:
     `str(serialize(v))` for an `int` / `float` parameter, `str(serialize(v)).lower()` for a `bool` one (httpx's
     spelling `true` / `false` of a query boolean), `serialize(v)` unconverted for every other declared type.
     (`lowerAscii`: exact on what `str` makes of a bool, a number or `None`; python's `.lower()` also lowers
@@ -780,18 +785,30 @@ def strValue (k : PKind) (v : GValue) : GValue :=
   | .num => .str v.tok
   | .bool => .str (lowerAscii v.tok)
 
-/-- One line of the `headers` dict display: the line of `dictEntry` with the value written through
+/-- One line of the `headers` / `cookies` dict display: the line of `dictEntry` with the value written through
     `_string_value_expr` (the `is not None` test of an optional one is on the argument itself). -/
-def headerEntry (args : GArgs) (p : PInfo) : Option (Str × GValue) :=
+def strEntry (args : GArgs) (p : PInfo) : Option (Str × GValue) :=
   (dictEntry args p).map (fun e => (e.1, strValue p.kind e.2))
 
-def headerEntries (ps : List PInfo) (args : GArgs) : List (Str × GValue) :=
-  (ps.filter (fun p => p.loc = .header)).filterMap (headerEntry args)
+/-- `_write_header_params` (`loc = header`) / `_write_cookie_params` (`loc = cookie`, F11 repaired). -/
+def strEntries (loc : SLoc) (ps : List PInfo) (args : GArgs) : List (Str × GValue) :=
+  (ps.filter (fun p => p.loc = loc)).filterMap (strEntry args)
 
 def headerValuesOk (h : Option (List (Str × GValue))) : Bool :=
   match h with
   | none => true
   | some es => es.all (fun e => e.2.isStr)
+
+def GValue.isOther : GValue → Bool
+  | .other _ => true
+  | _ => false
+
+/-- http.cookiejar (`_cookie_attrs`, reached from `httpx.Request.__init__`): `non_word_re.search(cookie.value)` raises
+    `TypeError` for a value that is neither `None` nor a `str`; a `None` value is written as the bare cookie name. -/
+def cookieValuesOk (c : Option (List (Str × GValue))) : Bool :=
+  match c with
+  | none => true
+  | some es => es.all (fun e => !e.2.isOther)
 
 /-- httpx ignores a keyword whose value is `None`. -/
 def mkBody (k : GValue → BodyArg) (v : GValue) : BodyArg := if v = .none then .none else k v
@@ -809,7 +826,13 @@ def stdQuery (op : Op) (args : GArgs) : Option (List (Str × GValue)) :=
 
 /-- `headers: dict[str, Any] = {…}` — written iff some parameter is `in: header`. -/
 def stdHeaders (op : Op) (args : GArgs) : Option (List (Str × GValue)) :=
-  if (orderedParams op).any (fun p => p.loc = .header) then some (headerEntries (orderedParams op) args)
+  if (orderedParams op).any (fun p => p.loc = .header) then some (strEntries .header (orderedParams op) args)
+  else none
+
+/-- `cookies: dict[str, Any] = {…}` — written iff some parameter is `in: cookie`, and then `cookies=cookies` is passed
+    to the transport call (F11 repaired); no `cookies` keyword at all otherwise. -/
+def stdCookies (op : Op) (args : GArgs) : Option (List (Str × GValue)) :=
+  if (orderedParams op).any (fun p => p.loc = .cookie) then some (strEntries .cookie (orderedParams op) args)
   else none
 
 /-- The body keyword of the single-content method. -/
@@ -838,7 +861,9 @@ def buildStd (op : Op) (args : GArgs) : Except CallErr Request :=
     | .error e => .error e
     | .ok b =>
       if !headerValuesOk (stdHeaders op args) then .error .headerTypeError
-      else .ok { method := op.method, path := pieces, query := stdQuery op args, headers := stdHeaders op args, body := b }
+      else if !cookieValuesOk (stdCookies op args) then .error .cookieTypeError
+      else .ok { method := op.method, path := pieces, query := stdQuery op args, headers := stdHeaders op args, body := b,
+                 cookies := stdCookies op args }
 
 /-- The `if … is not None: … elif …` chain over the media types in spec order. -/
 def dispatchBody (args : GArgs) : List Str → Option BodyArg
